@@ -147,6 +147,29 @@ def _run_function(c, seen):
         )
     if X3 is not X:
         _viol(c, seen, "features-touched", ("function-inverse",), "the reciprocal's transform did not return the features untouched")
+    # the parameter is changed after fit, without refitting (a grid search
+    # preparing its next candidate): transform and the reciprocal handed out
+    # by get_fct_inv must still belong together
+    other = ch.choice("w", sorted(FUNCTIONS), "fct-after")
+    if other != name:
+        ypos = numpy.abs(y) + 0.05  # in the domain of every predefined function
+        ok, t2 = U.sut(c, "construct", FunctionReciprocalTransformer, name)
+        ok = ok and U.sut(c, "fit", t2.fit, X, ypos)[0]
+        if ok:
+            U.sut(c, "set_params(fct)", t2.set_params, fct=other)
+            ok, r = U.sut(c, "transform(after set_params)", t2.transform, X, ypos)
+            ok2, inv2 = U.sut(c, "get_fct_inv(after set_params)", t2.get_fct_inv)
+            if ok and ok2:
+                ok3, r3 = U.sut(c, "inv.transform(after set_params)", inv2.transform, X, r[1])
+                if ok3 and not numpy.allclose(numpy.asarray(r3[1], dtype=float), ypos, rtol=1e-9, atol=1e-12):
+                    _viol(
+                        c,
+                        seen,
+                        "round-trip",
+                        ("function", "parameter-changed-after-fit"),
+                        "fitted with %r, then set_params(fct=%r) without refitting: transform followed by the reciprocal from get_fct_inv does not give back the targets (%r -> %r)" % (name, other, ypos[:3].tolist(), numpy.asarray(r3[1])[:3].tolist()),
+                    )
+                c.probe("parameter_changed_after_fit")
     # regressor wrapper: trained on f(y), predicts f^-1 of what the regressor predicts
     local = PLinReg() if ch.boolean("w", 0.5, "local") else PTreeReg(max_depth=2, random_state=0)
     tt = TransformedTargetRegressor2(regressor=local, transformer=name)
